@@ -59,6 +59,7 @@ type c01Deployment struct {
 	BackendErrs     []error
 	RelayBuf        int // size of the backend->client relay buffer (0: 32 KiB)
 	SlowWriteReturn bool
+	Interloper      []byte // first record of another client's connection accepted in between
 }
 
 // serve handles one client connection the way a split-mode front does.
@@ -74,6 +75,13 @@ func (d *c01Deployment) serve(front net.Conn, done chan<- struct{}) {
 	if err != nil {
 		front.Close()
 		return
+	}
+	if d.Interloper != nil {
+		// another client reaches the server before this connection's backend has read a byte
+		guard(func() error {
+			ech.NewConn(ctx, wire.New(d.Interloper, io.EOF), ech.WithKeys(d.Keys))
+			return nil
+		})
 	}
 	b1, b2 := wire.Pipe()
 	dl := time.Now().Add(20 * time.Second)
@@ -229,7 +237,7 @@ func (d *c01Deployment) connect(cfg *tls.Config, chunk int, payload []byte) c01R
 func TestC01(t *testing.T) {
 	rec := ev.Get("C01")
 	rec.Rule("full deployments with the real crypto/tls stack on both ends: client tls.Config (server name 1..253 bytes, 0..4 ALPN protocols, curve preference lists over {X25519, P-256, P-384, X25519MLKEM768} - hence key_share sizes and real HelloRetryRequests -, cold or warm session cache, optional client certificate with a 0.5..40 KB chain), backend tls.Config without ECH keys (curves, ALPN, client auth, certificate chain 0.5..40 KB, session tickets), client-facing key set of 1..3 keys, the three AEAD suites, fresh or stale client config, client writes chunked 1..4096 bytes or whole, backend output relayed to the Conn through a reused buffer of 1..4096 bytes or 32 KiB. Oracle: the two crypto/tls endpoints - fresh: handshake completes, client ECHAccepted, echo both ways, backend ServerName/ALPN and Conn.ServerName/ALPNProtos equal the client's inner values; stale: hello reaches the public-name server untouched (that server has drawn curve preferences too, so the rejection handshake may itself go through a HelloRetryRequest), client gets ECHRejectionError with the server's retry configs and a second connection with them is accepted. distinct = configuration tuple; non-trivial = anything but X25519 / no ALPN / cold / single key")
-	rec.Mandatory("config_id_collision", "hrr", "resumed", "pq_share", "name_ge200", "server_chain_ge16k", "client_chain_ge16k", "aead1", "aead2", "aead3", "stale", "stale_hrr", "chunked", "client_auth", "backend_records_split_by_relay")
+	rec.Mandatory("config_id_collision", "hrr", "resumed", "pq_share", "name_ge200", "server_chain_ge16k", "client_chain_ge16k", "aead1", "aead2", "aead3", "stale", "stale_hrr", "chunked", "client_auth", "backend_records_split_by_relay", "other_connection_accepted_in_between")
 	rapid.Check(t, func(t *rapid.T) {
 		var cl []string
 		serverName := hello.TwoLabels(hello.GenName(t, "server_name", 253))
@@ -312,6 +320,10 @@ func TestC01(t *testing.T) {
 			}
 		}
 		d := &c01Deployment{Keys: echKeys(keys...), BackendCfg: backend, PublicName: publicName}
+		if rapid.IntRange(0, 2).Draw(t, "interloper") == 0 {
+			d.Interloper = hello.Record(22, 0x0303, hello.GenPlain(t, "interloper_hello", hello.PlainOpts{}).Message())
+			cl = append(cl, "other_connection_accepted_in_between")
+		}
 		if rapid.IntRange(0, 2).Draw(t, "small_relay_buffer") == 0 {
 			d.RelayBuf = []int{1, 3, 7, 100, 517, 1500, 4096}[rapid.IntRange(0, 6).Draw(t, "relay_buf")]
 			cl = append(cl, "backend_records_split_by_relay")
